@@ -52,7 +52,7 @@ def valid_sources(ctx, rng, base):
 
 def mutate(rng, name, data, k):
     """k-th mutant of a valid file: (new name, bytes, description)"""
-    mode = k % 7
+    mode = k % 8
     root, ext = name.split('.', 1)
     if mode == 0:        # truncation
         cut = [0, 1, 5, 6, 7, len(data) // 3, len(data) // 2, len(data) - 1][rng.below(8)] if rng.chance(1, 2) else rng.below(len(data) + 1)
@@ -77,6 +77,15 @@ def mutate(rng, name, data, k):
         return f'bad{k}.{ext2}', data, f'{name} renamed to .{ext2}'
     if mode == 5:        # NUL / 0xFF fill
         return f'bad{k}.{ext}', bytes([rng.pick([0, 0xFF])]) * rng.pick([7, 128, 129, 5000]), f'constant fill named .{ext}'
+    if mode == 7:        # a complete valid file followed by more bytes: a second copy (concatenated members) or junk whose last
+        # little-endian dword is large (the gzip reader takes the uncompressed size from the file's last 4 bytes)
+        import struct
+        variant = (k // 8) % 4
+        if variant == 2:
+            return f'bad{k}.{ext}', data + data, f'{name} followed by a second copy of itself'
+        dword = [len(data) * 3 + 1000, 70000, None, 0x7FFFFFFF][variant]
+        junk = bytes(rng.below(256) for _ in range(rng.range(0, 200))) + struct.pack('<I', dword)
+        return f'bad{k}.{ext}', data + junk, f'{name} followed by {len(junk)} bytes of junk ending in the dword {dword}'
     b = bytearray(data)   # size field games: duplicate / drop the tail
     return f'bad{k}.{ext}', bytes(b + b[len(b) // 2:]), f'{name} with duplicated tail'
 
@@ -107,9 +116,12 @@ def oracle_and_corr(ctx):
     failures, samples, cases = [], [], []
     outcomes = {}
     ev = 0
-    for k in range(n):
-        name = names[k % len(names)]
-        bname, bdata, desc = mutate(rng, name, valids[name], k // len(names) + (k % 7))
+    plan = [(names[k % len(names)], k // len(names) + (k % 7)) for k in range(n)]
+    # every container kind also gets the 'complete file + trailing bytes' mutants deterministically (mode 7)
+    plan += [(nm, 7 + 8 * r) for nm in names if nm != 't.log' for r in range(ctx.q(2, 8))]
+    for k, (name, kk) in enumerate(plan):
+        bname, bdata, desc = mutate(rng, name, valids[name], kk)
+        bname = 'k%d_%s' % (k, bname)
         bad = os.path.join(work, bname)
         open(bad, 'wb').write(bdata)
         ngood = rng.pick([0, 1, 1, 2, 3])
@@ -152,7 +164,7 @@ def oracle_and_corr(ctx):
                 os.unlink(g['path'])
         os.unlink(bad)
     orc = {'evaluations': ev, 'distinct_nontrivial': ev, 'failures': failures, 'samples': samples, 'exit_status_histogram': outcomes,
-           'rule': f'{n} mutants (truncation at boundary and random points, header bit flips, byte smashes, random bytes, constant fill, duplicated tail, valid content under '
+           'rule': f'{n} mutants (truncation at boundary and random points, header bit flips, byte smashes, random bytes, constant fill, duplicated tail, complete file + trailing junk / second member, valid content under '
                    f'15 mismatching names) of valid text/gz/bz2/xz/lz4/tar/wtmp/evtx/journal files, alone and beside 1-3 valid sources in shuffled order, half under delay plans; '
                    f'exit status in {{0,1}}, no panic text, exit within {TIME_LIMIT}s, healthy sources\' lines all printed in merge order; every mutant is distinct (fresh PRNG draw)'}
     corr = coord_common.trace_correspondence(ctx, [(n_, t, p) for n_, t, p in cases if t and t[-1] == 'E'])
